@@ -1,10 +1,10 @@
 (* C03 - serialise then parse gives back the same graph.  Property theorems for the part that is modelled:
    the text level of N-Triples (K1, complete: writer rows, reader lines, documents) and of Turtle-family string
-   literals (K2: one-quote form complete, three-quote form for strings without a quote character).  Everything
+   literals (K2, complete: both forms, every string).  Everything
    about graph structure (blank-node inlining, lists, RDF/XML, JSON-LD, HexTuples, prefixes, numeric
    shorthand) is conformance testing in harness/c03.py and has no theorem here.
    Proofs are in Codec/Proofs.v. *)
-From RV Require Import Codec.Model Codec.Proofs.
+From RV Require Import Codec.Model Codec.Proofs Codec.TurtleProofs.
 
 (* K1. The four chained str.replace calls of nt._quote_encode are one pass over the characters. *)
 Theorem C03_nt_quote_one_pass : forall s, nt_encode_body s = flat_map nt_esc1 s.
@@ -44,7 +44,7 @@ Print Assumptions C03_nt_roundtrip_partial.
 
 Theorem C03_nt_roundtrip_refuted : exists t,
   wf_triple t = true /\ pystr_triple t = true /\ nt_kf (NtTriple t) = 1 /\
-  exists s, nt_row t = Some s /\ parse_doc s = None.
+  exists s, nt_row t = Some s /\ parse_doc s = None /\ parse_doc_buf bufsiz s = None.
 Proof. exists w_nbsp_triple. exact nt_roundtrip_refuted_witness. Qed.
 Print Assumptions C03_nt_roundtrip_refuted.
 
@@ -54,6 +54,19 @@ Theorem C03_nt_roundtrip_doc_partial : forall ts, forallb good_triple ts = true 
   exists s, nt_doc ts = Some s /\ parse_doc s = Some ts.
 Proof. exact nt_roundtrip_doc. Qed.
 Print Assumptions C03_nt_roundtrip_doc_partial.
+
+(* K1, the reader as written: readline refills a buffer bufsiz = 2048 characters at a time.  For every chunk size
+   n >= 1 and documents of ANY length the rows of such triples are read back as that list (a row never contains
+   CR or LF, so the only artefact of buffering - a CRLF cut in two - cannot arise). *)
+Theorem C03_nt_roundtrip_doc_buffered_partial : forall n, (1 <= n)%nat -> forall ts, forallb good_triple ts = true ->
+  exists s, nt_doc ts = Some s /\ parse_doc_buf n s = Some ts.
+Proof. exact nt_roundtrip_doc_buffered. Qed.
+Print Assumptions C03_nt_roundtrip_doc_buffered_partial.
+
+(* the fuel in the definition of the buffered reader never runs out: parse_doc_buf is a total model *)
+Theorem C03_nt_buffered_reader_total : forall n s, (1 <= n)%nat -> read_all n (S (S (length s))) [] s <> None.
+Proof. exact parse_doc_buf_fuel. Qed.
+Print Assumptions C03_nt_buffered_reader_total.
 
 (* K1: what the correspondence check evaluates on the implementation's answers holds of the model. *)
 Theorem C03_nt_spec_model_partial : forall c, nt_wf c = true -> nt_kf c = 0 -> nt_spec c (nt_model c) = true.
@@ -76,18 +89,37 @@ Theorem C03_turtle_string_roundtrip_short : forall s, mem 10 s = false -> ttl_re
 Proof. exact ttl_short_roundtrip. Qed.
 Print Assumptions C03_turtle_string_roundtrip_short.
 
-(* K2, three-quote form.  FULL STATEMENT: forall s, ttl_read (ttl_quote_encode s) = Some s.  Proved here only
-   for strings without a quote character; for strings with quotes (where the replacement of triple quotes, the
-   trailing-quote patch and the reader's 3/4/5-quote rule interact) the statement is checked by enumeration in
-   the ttl_string suite, not proved. *)
-Theorem C03_turtle_string_roundtrip_partial : forall s, mem 10 s = true -> mem 34 s = false ->
-  ttl_read (ttl_quote_encode s) = Some s.
-Proof. exact ttl_long_roundtrip_partial. Qed.
-Print Assumptions C03_turtle_string_roundtrip_partial.
+(* K2, three-quote form (a line feed in the string).  The pipeline "replace backslash; replace triple quotes; patch a
+   trailing quote; replace CR" is one structural pass over the string (two characters of look-ahead, the previous
+   character remembered) ... *)
+Theorem C03_turtle_long_one_pass : forall s, s <> [] ->
+  replace1 13 [92; 114]
+    (patch_last (if contains3 s then rep3 (replace1 92 [92; 92] s) else replace1 92 [92; 92] s)) = Fg ee None s.
+Proof. exact ttl_long_body_is_Fg. Qed.
+Print Assumptions C03_turtle_long_one_pass.
 
-Theorem C03_ttl_spec_model_partial : forall c, ttl_wf c = true -> ttl_spec c (ttl_model c) = true.
-Proof. exact ttl_spec_model_partial. Qed.
-Print Assumptions C03_ttl_spec_model_partial.
+(* ... which SinkParser.strconst inverts (3/4/5-quote end rule included), whatever non-quote text follows. *)
+Theorem C03_turtle_strconst_inverts : forall s prev z, no_quote_head z = true ->
+  strconst true (Fg ee prev s ++ QQQ ++ z) = Some (s, z).
+Proof. exact strconst_Fg. Qed.
+Print Assumptions C03_turtle_strconst_inverts.
+
+(* K2, FULL STATEMENT: every string of code points, both forms, quotes anywhere. *)
+Theorem C03_turtle_string_roundtrip : forall s, ttl_read (ttl_quote_encode s) = Some s.
+Proof. exact ttl_roundtrip. Qed.
+Print Assumptions C03_turtle_string_roundtrip.
+
+(* the same inside a document: followed by anything that does not start with a quote, the reader stops exactly after
+   the closing delimiter *)
+Theorem C03_turtle_string_roundtrip_in_context : forall s z, mem 10 s = true -> no_quote_head z = true ->
+  strip_prefix [34; 34; 34] (ttl_quote_encode s ++ z) <> None /\
+  forall body, strip_prefix [34; 34; 34] (ttl_quote_encode s ++ z) = Some body -> strconst true body = Some (s, z).
+Proof. exact ttl_long_roundtrip_in_context. Qed.
+Print Assumptions C03_turtle_string_roundtrip_in_context.
+
+Theorem C03_ttl_spec_model : forall c, ttl_spec c (ttl_model c) = true.
+Proof. exact ttl_spec_model. Qed.
+Print Assumptions C03_ttl_spec_model.
 
 Theorem C03_ttl_spec_reading : forall s text back,
   ttl_spec (TtlString s) (ObsString text back) = true <-> back = Some s.
